@@ -32,8 +32,8 @@ LEVEL = "fault_enumeration"
 RULE = (
   "scenes {apart, coupled} x jacobian {dense, sparse} x cone {pyramidal, elliptic} x every nvmax 0..nv x every awake subset of the "
   "T=3 trees (world 0; world 1 carries a second subset) x entries {forward, resolve, api}; a fault is injected when the awake dofs "
-  "exceed nvmax; non-trivial = the compacted solve ran with non-zero constraint forces in every tree of the reference and at least "
-  "one subset froze a tree or overflowed; distinct = (scene, jacobian, cone, nvmax, world-1 map)"
+  "exceed nvmax; non-trivial = every tree of the all-awake reference carries non-zero constraint forces and at least one subset froze "
+  "a tree (zero-acceleration oracle exercised on garbage-filled outputs) or overflowed (fault injected); distinct = (scene, jacobian, cone, nvmax, world-1 map)"
 )
 BOUNDS = {
   "quick": "nv=12, T=3, nvmax 0..12 all, 8 subsets for world 0 with world 1 = bijective image (3s+5 mod 8), 2 worlds, 1 state alphabet per seed",
@@ -179,11 +179,18 @@ def _reference(key, subsets, variant):
     if len(_REF) > 200:
       _REF.clear()
     _, _, mjm_n, m_n = _models(*key)
+    import mujoco
+
     d = mjw.make_data(mjm_n, nworld=NW)
+    inertia = []
     for w, s in enumerate(subsets):
-      util.copy_state(_state(mjm_n, w, variant, s), d, world=w)
+      st = _state(mjm_n, w, variant, s)
+      util.copy_state(st, d, world=w)
+      mujoco.mj_forward(mjm_n, st)
+      inertia.append(util.mj_full_m(mjm_n, st))
     mjw.forward(m_n, d)
     r = _grab(m_n, d)
+    r["M"] = inertia
     r["rows"] = [util.efc_dense(m_n, d, w)[1] for w in range(NW)]
     _REF[rk] = r
   return _REF[rk]
@@ -268,8 +275,10 @@ def _oracle(c, tag, entry, scene, mjm, m, d, k, want_awake, ref, counts, check_f
         elif c.close(pre + "efc.J (rows matched)", rg["J"][og], rr["J"], "f32dyn", vkey=f"{entry}:all_awake:efc_J"):
           c.close(pre + "efc.force", rg["force"][og], rr["force"], "solver", vkey=f"{entry}:all_awake:efc_force")
     if full or scene == "apart":
-      for f in OUT:
-        c.close(pre + f + "[awake]", got[f][w][adofs], ref[f][w][adofs], "solver", vkey=f"{entry}:{'all_awake' if full else 'partial'}:{f}")
+      kind = "all_awake" if full else "partial"
+      c.close(pre + "qacc_smooth[awake]", got["qacc_smooth"][w][adofs], ref["qacc_smooth"][w][adofs], "f32dyn", vkey=f"{entry}:{kind}:qacc_smooth")
+      c.close(pre + "qfrc_constraint[awake]", got["qfrc_constraint"][w][adofs], ref["qfrc_constraint"][w][adofs], "solver", vkey=f"{entry}:{kind}:qfrc_constraint")
+      _qacc_close(c, pre + "qacc[awake]", got["qacc"][w][adofs], ref["qacc"][w][adofs], ref["M"][w][np.ix_(adofs, adofs)], mjm, f"{entry}:{kind}:qacc")
     # internal consistency: qfrc_constraint = J^T force on awake dofs
     n = min(int(got["nefc"][w]), d.njmax)
     if n:
@@ -277,6 +286,29 @@ def _oracle(c, tag, entry, scene, mjm, m, d, k, want_awake, ref, counts, check_f
       jf = J.T @ got["force"][w, :n].astype(np.float64)
       c.close(pre + "qfrc_constraint vs J^T f", got["qfrc_constraint"][w][adofs], jf[adofs], "f32dyn", vkey=f"{entry}:jtf")
   return stats
+
+
+def _qacc_close(c, name, got, want, M, mjm, vkey):
+  """Solver-class comparison of accelerations in the solver's own metric.
+
+  The Newton solver stops when the (remaining) cost decrease, rescaled by 1/(meaninertia*nv), is below opt.tolerance.
+  For two iterates near the optimum the cost gap is >= 0.5 e^T M e (the Hessian is M + J^T D J), so two converged
+  solves may differ by e with 0.5 e^T M e / (meaninertia*nv) ~ tolerance: on a dof with a tiny inertia (the spin of a
+  thin capsule, 7e-4) that is several 1e-2 of acceleration although forces agree to 1e-5.  Bound: 10 x tolerance
+  (both sides carry their own stopping error).  A wrong index / missing row gives 1e-3..1 here, tolerance is 1e-6.
+  """
+  c.nchecked += 1
+  got, want = np.asarray(got, np.float64), np.asarray(want, np.float64)
+  if not np.all(np.isfinite(got)):
+    c.fail(vkey, f"{name}: non-finite value in MJWarp result")
+    return
+  e = got - want
+  tol = max(float(mjm.opt.tolerance), 1e-6)
+  gap = 0.5 * float(e @ M @ e) / (float(mjm.stat.meaninertia) * max(1, mjm.nv))
+  c.maxrel = max(c.maxrel, gap)
+  if gap > 10 * tol:
+    i = int(np.argmax(np.abs(e)))
+    c.fail(vkey, f"{name}: energy-norm gap {gap:.3g} > {10 * tol:.3g} (max |got-want|={abs(e[i]):.3g} at {i}: got={got[i]:.6g} want={want[i]:.6g})")
 
 
 def _place(mjm, d, variant, subsets):
@@ -367,5 +399,5 @@ def execute(scn):
     counts["extra_evaluations"] += 1
 
   counts["extra_evaluations"] = max(0, counts["extra_evaluations"])
-  nontrivial = ref_ok and (agg["frozen"] or agg["fault"]) and (agg["solved"] or k == 0)
+  nontrivial = ref_ok and (agg["frozen"] or agg["fault"])
   return c.result(nontrivial=nontrivial, key=util.sha(scn), counts=counts, info=dict(nv=nv, checked=c.nchecked, maxrel=round(c.maxrel, 8), ref_ok=bool(ref_ok)))
